@@ -12,7 +12,7 @@ LEVEL = 'fault_enumeration'
 RULE = (
     '2-7 contenders of one lock (plus a second lock in some scenarios) with arrival offsets and '
     'hold times from a colliding grid (same-turn arrivals, zero holds, immediate re-requests), '
-    'nesting depth 1-3; in half of the scenarios the Lock objects have already served an earlier, complete run(); each scenario is executed un-injected and then with cancel / '
+    'nesting depth 1-3 (inner levels also inside an async generator that the owner closes while keeping the outer level); in half of the scenarios the Lock objects have already served an earlier, complete run(); each scenario is executed un-injected and then with cancel / '
     'until-interrupt / forceful close injected at activation boundaries of any contender '
     '(quick: sampled; thorough: every boundary x every contender x 3 kinds + double faults). '
     'Oracle: sequential lock specification checked over the event log (request, enter, leave, '
@@ -48,7 +48,11 @@ def make_case(seed, index, tier):
             rounds.append({'offset': rng.choice(GRID), 'hold': rng.choice(GRID),
                            'depth': rng.choice([1, 1, 1, 2, 3]),
                            'inner_wait': rng.choice([0, 0, 0.5]),
-                           'lock': 0 if rng.random() < 0.8 else 1})
+                           'lock': 0 if rng.random() < 0.8 else 1,
+                           # the inner re-entrant level lives in an async generator that the
+                           # owner closes again: that level is left by GeneratorExit while the
+                           # activity itself goes on holding the outer level
+                           'via_generator': rng.random() < 0.3})
         contenders.append({'name': 'p%d' % number, 'rounds': rounds})
     # the locks may have served an earlier simulation (e.g. module-level locks)
     return {'seed': seed, 'index': index, 'tier': tier, 'scenario': contenders,
@@ -172,7 +176,17 @@ def build_for(case):
         def contender(spec):
             name = spec['name']
 
-            async def acquire(index, depth, hold, inner_wait):
+            async def inner_level(index):
+                lock = locks[index]
+                checker.request(name, index)
+                async with lock:
+                    checker.enter(name, index)
+                    try:
+                        yield
+                    finally:
+                        checker.leave(name, index)
+
+            async def acquire(index, depth, hold, inner_wait, via_generator=False):
                 lock = locks[index]
                 checker.request(name, index)
                 entered = False
@@ -181,7 +195,18 @@ def build_for(case):
                         entered = True
                         checker.enter(name, index)
                         try:
-                            if depth > 1:
+                            if depth > 1 and via_generator:
+                                level = inner_level(index)
+                                await level.__anext__()
+                                await level.aclose()
+                                del level
+                                checker.stats['levels_left_by_generatorexit'] = \
+                                    checker.stats.get('levels_left_by_generatorexit', 0) + 1
+                                if hold:
+                                    await (time + hold)
+                                else:
+                                    await instant
+                            elif depth > 1:
                                 await acquire(index, depth - 1, hold, inner_wait)
                             else:
                                 if hold:
@@ -202,7 +227,7 @@ def build_for(case):
                     if round_['offset']:
                         await (time + round_['offset'])
                     await acquire(round_['lock'], round_['depth'], round_['hold'],
-                                  round_['inner_wait'])
+                                  round_['inner_wait'], round_.get('via_generator', False))
             return run
         participants = [(spec['name'], contender(spec)) for spec in case['scenario']]
         return participants, (), checker
